@@ -9,6 +9,7 @@ import Dbg.Driver.C13
 import Dbg.Driver.C16
 import Dbg.Driver.C05
 import Dbg.Driver.C01
+import Dbg.Driver.C03
 /-! `dbgdriver`: one request per line on stdin (`<prop> <op> <args…>\t<implementation answer>`),
     one line per request on stdout (`<model answer>\t<verdict of holdsCxx on the implementation answer>`). -/
 open Drv
@@ -27,6 +28,7 @@ def dispatch (prop : String) (args : List String) (impl : String) : R Ans :=
   | "C05" => C05.handle args impl
   | "C01" => C01.handle "C01" args impl
   | "C02" => C01.handle "C02" args impl
+  | "C03" => C03.handle args impl
   | "C12" => (match args with | "exts" :: _ => C13.handleExts args impl | _ => C13.handle args impl)
   | _ => throw s!"unknown-property:{prop}"
 
